@@ -187,6 +187,8 @@ class MemBackend(_Common, short_name='vfmem'):
 
     def upload(self, name, data):
         data = bytes(data)
+        if self.store.payload_log is not None:
+            self.store.payload_log.append((name, data))        # sent, whether or not the call succeeds
         return self._run('upload', name, lambda: self.store.apply('upload', name, data, self._actor), len(data))
 
     def upload_stream(self, name, stream, length, chunk_size=DEFAULT_STREAM_CHUNK_SIZE):
@@ -275,6 +277,8 @@ class AsyncMemBackend(_Common, short_name='vfamem'):
 
     async def upload(self, name, data):
         data = bytes(data)
+        if self.store.payload_log is not None:
+            self.store.payload_log.append((name, data))
         return await self._run('upload', name,
                                lambda: self.store.apply('upload', name, data, self._actor), len(data))
 
